@@ -61,7 +61,7 @@ def check_delegation(ctx, rule, only_array=False):
         if len(paths) != 1:
             raise AnalysisError(f"{m.qualname}: expected one path")
         p = paths[0]
-        calls = [e for e in p.events if e.kind == "int_call" and e.func == m.qualname and e.data["callee"] in opaque]
+        calls = [e for e in p.events if e.kind == "int_call" and e.data["callee"] in opaque]
         n += 1
         if len(calls) != 1 or calls[0].data["callee"] != callee:
             ctx.bad(
@@ -119,7 +119,7 @@ def check_builder(ctx, rule):
     tbl = p.value
     calls = {}
     for e in p.events:
-        if e.kind == "int_call" and e.func == q:
+        if e.kind == "int_call":
             calls.setdefault(e.data["callee"], []).append(e)
     SQ, MQ = GAS + "pseudocritical_point_Sutton", GAS + "make_nonhydrocarbon_properties"
     gv = lambda k: col("gas_values", k)
